@@ -83,7 +83,7 @@ func TestC08(t *testing.T) {
 		})
 	}
 	// (2) insert/remove histories on the reference HAMT, snapshots read back
-	nh := r.Pick(96, 1000)
+	nh := r.Pick(256, 6000)
 	for i := 0; i < nh; i++ {
 		f := allFanouts[i%len(allFanouts)]
 		steps := []int{10, 40, 150, 600, 2000}[(i/len(allFanouts))%5]
